@@ -3,7 +3,7 @@
    for every order / shape / rank / weights / factors, with no size bound. *)
 From Coq Require Import List Arith ZArith Reals Bool Ring Lia.
 From TLV Require Import Base.Shape Base.PyList Base.Tensor Base.BigSum Base.Ops Model.Errors
-     Proofs.ErrorsProofs Proofs.ErrorsSkeleton Proofs.ErrorsSkeletonCP Proofs.ErrorsP2.
+     Proofs.ErrorsProofs Proofs.ErrorsSkeleton Proofs.ErrorsSkeletonCP Proofs.ErrorsP2 Proofs.ErrorsTR.
 Import ListNotations.
 
 (* squared-error expansion over an arbitrary index space:  sum (X - Y)^2 = sum X^2 + sum Y^2 - 2 sum X Y *)
@@ -165,6 +165,34 @@ Theorem C06_hooi_masked_stale_norm_refuted :
 Proof. exact hooi_masked_stale_norm_refuted. Qed.
 Print Assumptions C06_hooi_masked_stale_norm_refuted.
 
+(* tensor-ring ALS: the quantity tensor_ring_als reports, the residual || design_mat . sol - X_(d)^T || of the LAST least-squares
+   sub-problem of the sweep, is the residual of the tensor ring whose core d was rebuilt from sol (cyclicity of the trace):
+   entry-wise and summed; every order, every mode d, all bond dimensions (ring closure r_N = r_0) *)
+Theorem C06_tr_als_prediction_is_ring_entry : forall (F : Type) (Op : fops F),
+  ring_theory (f0 Op) (f1 Op) (fadd Op) (fmul Op) (fsub Op) (fopp Op) (@eq F) ->
+  forall (r0 : nat) (cores : list (@core F)) (d : nat) (idx' : list nat) (i : nat),
+  d < length cores -> length idx' = length cores - 1 ->
+  endbond r0 (map (fun c => (fst c, fun a b => snd c a 0 b)) cores) = r0 ->
+  ls_prediction Op r0 cores d idx' i = tr_entry Op r0 cores (insert_at d i idx').
+Proof. exact @ls_prediction_is_tr_entry. Qed.
+Print Assumptions C06_tr_als_prediction_is_ring_entry.
+Theorem C06_tr_als_residual_is_ring_error : forall (F : Type) (Op : fops F),
+  ring_theory (f0 Op) (f1 Op) (fadd Op) (fmul Op) (fsub Op) (fopp Op) (@eq F) ->
+  forall (s : list nat) (X : list nat -> F) (r0 : nat) (cores : list (@core F)) (d : nat),
+  length cores = length s -> d < length s ->
+  endbond r0 (map (fun c => (fst c, fun a b => snd c a 0 b)) cores) = r0 ->
+  ls_residual2 Op s X r0 cores d = dist2 Op s (tr_entry Op r0 cores) X.
+Proof. exact @ls_residual_is_tr_error. Qed.
+Print Assumptions C06_tr_als_residual_is_ring_error.
+
+(* parafac's callback BEFORE the loop under mask + sparsity, the code as it is: the error it passes is computed with the sparse
+   component of the imputed residual, the sparse component it passes is computed from the un-imputed tensor; the two differ *)
+Theorem C06_callback0_mask_sparse_refuted :
+  exists (X L m : tensor Z) (card : nat),
+    fst (cb0_reported Zops X L m card) <> fst (cb0_error_of_handed Zops X L m card).
+Proof. exact cb0_mask_sparse_refuted. Qed.
+Print Assumptions C06_callback0_mask_sparse_refuted.
+
 (* ---- non-vacuity: the hypotheses are satisfiable and the model computes *)
 Example C06_ring_Z : ring_theory (f0 Zops) (f1 Zops) (fadd Zops) (fmul Zops) (fsub Zops) (fopp Zops) (@eq Z).
 Proof. exact Zth. Qed.
@@ -215,3 +243,11 @@ Example C06_parafac2_nonvacuous :
   let A := mk [2;2] [1;2;1;1]%Z in let B := mk [2;2] [1;0;1;1]%Z in let C := mk [2;2] [1;1;0;1]%Z in
   p2_all Zops slices (Some [2;1]%Z) A B C Ps = (61, 61, 61, 45)%Z.
 Proof. vm_compute. reflexivity. Qed.
+
+(* tensor ring on a concrete instance over Z: order 3, bonds (2,1,2,2): sub-problem residual (mode 2) = ring residual *)
+Example C06_tr_nonvacuous :
+  let X := mk [2;2;2] [1;2;3;4;5;6;7;8]%Z in
+  let cores := [mk [2;2;1] [1;2;0;1]%Z; mk [1;2;2] [1;0;2;1]%Z; mk [2;2;2] [1;0;0;1;1;1;0;2]%Z] in
+  endbond 2 (map (fun c => (fst c, fun a b => snd c a 0 b)) (map (core_of Zops) cores)) = 2 /\
+  let '(ls, t, nx) := tr_all Zops X cores in ls = t /\ nx = 204%Z.
+Proof. vm_compute. repeat split. Qed.
